@@ -140,7 +140,10 @@ func Run(o Options) (*Result, error) {
 		}
 	}
 
-	args := []string{"-XX:+UseParallelGC", fmt.Sprintf("-Xmx%dg", o.HeapGB), "-Xss64m"}
+	// TLC unpacks its standard modules into java.io.tmpdir/tlc-<n> and leaves them there: keep them inside the scratch directory
+	jtmp := filepath.Join(scratch, "jtmp")
+	_ = os.MkdirAll(jtmp, 0o755)
+	args := []string{"-XX:+UseParallelGC", fmt.Sprintf("-Xmx%dg", o.HeapGB), "-Xss64m", "-Djava.io.tmpdir=" + jtmp}
 	if o.Deque {
 		args = append(args, "-Dtlc2.tool.queue.IStateQueue=StateDeque")
 	}
